@@ -21,6 +21,9 @@ the failure persists) and classified into exactly one signature:
     C04:negative-subsecond-timestamp         F10b: a float timestamp in (-1, 0) loses its sign
     C04:exponent-float-timestamp-mantissa    F28: repr in exponent form with >= 9 mantissa digits read by the aaaa.bbbb branch
     C04:negative-bound-count-without-sum     F17: in-process Histogram with a negative first bound
+    C04:duplicate-mixed-timestamp-spelling   F29 (converse only): one series twice at one instant, once as aaaa.bbbb and once in float
+                                             spelling — kept on the first parse (a Timestamp never equals a float), dropped on the second
+    C04:exemplar-rendering                   a '"' in an exemplar label and the exposition line is NOT what the format asks for
     C04:label-name-unvalidated:<source>      F20 class (C03): a label name the library itself rejects reached the exposition
     C04:<what differs>                       anything else (never expected)
 T2: `expo om <families>` of the driver = the real bytes; `om parse` = the real parse (families or error class) on every
@@ -1385,7 +1388,7 @@ def replay(ctx, case):
             if res is not None:
                 print('REPLAY first parse: %s' % (c14om.obs(('ok', c14om.enc_families(res['o1'][1])) if res['o1'][0] == 'ok' else res['o1'])[:200]))
                 print('REPLAY re-exposition %r' % (res.get('text2'),))
-                print('REPLAY verdict: %s' % (res.get('fail') or res.get('skip') or 'parse → expose → parse reproduces the families'))
+                print('REPLAY verdict: %s' % (res.get('fail') or res.get('skip') or 'parse → expose → parse reproduces the families',))
         elif 'families' in c:
             spec = {'kind': 'registry', 'legacy': bool(c['legacy']), 'families': c['families']}
             print('REPLAY registry', compact(spec))
@@ -1401,7 +1404,7 @@ def replay(ctx, case):
                             print('   parsed', f.name, f.type, f.unit, repr(f.documentation), [tuple(s)[:5] for s in f.samples][:6])
                     else:
                         print('   parse outcome', o)
-                print('REPLAY verdict: %s' % (res.get('fail') or 'parse(expose(registry)) equals the collected families'))
+                print('REPLAY verdict: %s' % (res.get('fail') or 'parse(expose(registry)) equals the collected families',))
         elif 'request' in c:
             print('REPLAY function-level request %r (recorded real=%r model=%r)' % (c['request'][:200], c.get('real'), c.get('model')))
             rep = ctx.driver.run([c['request']])
